@@ -65,10 +65,38 @@ def run(ctx: Ctx) -> dict:
                 if a != b and ((a.isdigit() and b.isdigit()) or (a.isalpha() and b.isalpha())):
                     ops.append({"op": "iban.new", "t": cps(iban[:p] + b + a + iban[p + 2:]), "vb": False,
                                 "err": "transpose"})
+    # the guarantee does not depend on what was asked before: a call that fails half-way (a separator or
+    # a non-alphabetic sign inside the number, reaching the digit conversion before the structure check)
+    # is followed at once by a mistyped IBAN - state left behind by the failure must not let it through
+    hist_rows = [r for r in table if gen.row_classes(r) is not None]
+    rng.shuffle(hist_rows)
+    after_failure = 0
+    for row in hist_rows[:6 if ctx.quick else 40]:
+        iban = gen.valid_iban(row, rng)
+        cc, bban = iban[:2], iban[4:]
+        typos = []
+        for p in range(4, len(iban)):
+            alts = gen.same_kind_alternatives(iban[p])
+            alt = alts[rng.randrange(len(alts))]
+            typos.append(iban[:p] + alt + iban[p + 1:])
+        rng.shuffle(typos)
+        for k in range(25 if ctx.quick else 60):
+            cut = rng.randrange(1, min(4, len(bban)))
+            lead = "".join(rng.choice("0123456789") for _ in range(cut))
+            sign = "-/.:_"[k % 5]
+            for t in typos[:30 if ctx.quick else 60]:
+                if k % 2:
+                    ops.append({"op": "iban.from_bban", "cc": cps(cc), "bban": cps(lead + sign + bban[cut + 1:]),
+                                "ai": False, "vb": False, "err": "poison"})
+                else:
+                    ops.append({"op": "iban.new", "t": cps(cc + lead + sign + iban[cut + 3:]), "vb": False,
+                                "err": "poison"})
+                ops.append({"op": "iban.new", "t": cps(t), "vb": False, "err": "substitute"})
+                after_failure += 1
     events = calls.execute(ctx, ops, "c03")
     mism = calls.validate(ctx, "TraceCalls", events, env, "c03", per_shard=30000)
     calls.report(ctx, mism, CLAUSES)
-    slipped = [e for e in events if e["err"] != "none" and e["out"]["k"] == "ok"
+    slipped = [e for e in events if e["err"] in ("substitute", "transpose") and e["out"]["k"] == "ok"
                and (e["op"] != "iban.is_valid" or e["out"].get("ret"))]
     if slipped and not ctx.violations:
         # the library accepted a single-error text and TLC agreed it is valid: the
@@ -80,7 +108,8 @@ def run(ctx: Ctx) -> dict:
     calls.three_samples(ctx, events)
     return {"rule": "all countries x n valid IBANs x every position >= 2 x every same-kind replacement (9 digits / "
                     "25 letters) and every adjacent same-kind transposition; each is a distinct invalid text",
-            "distinct_nontrivial": len({tuple(e["t"]) for e in events}), "exhaustive": False,
+            "distinct_nontrivial": len({tuple(e.get("t") or e["bban"]) for e in events}), "exhaustive": False,
             "extra": {"seed_ibans": seeds, "substitutions": sum(1 for e in events if e["err"] == "substitute"),
                       "transpositions": sum(1 for e in events if e["err"] == "transpose"),
-                      "single_error_texts_accepted": len(slipped)}}
+                      "single_error_texts_accepted": len(slipped),
+                      "typos_asked_right_after_a_failing_call": after_failure}}
